@@ -80,6 +80,21 @@ def fresh(task):
             alone = [float(evaluate(pid, B[i:i + 1].copy(), 0)[0]) for i in range(n)]
             gap = max(abs(a - b) / max(1.0, abs(b)) for a, b in zip(yb, alone)) if len(yb) == n else float("inf")
             sub.append({"n": n, "gap": float(gap), "row0": B[0].tolist() if gap > 1e-9 else None})
+    # a LARGE batch (blocked evaluation must not lose or reorder rows): n values, and sampled rows equal the row alone
+    big = None
+    if pid not in NOISY and variant == 0 and D in (30, 50):
+        n = 20011 if D == 30 else 7001
+        rs = np.random.RandomState(zlib.crc32(f"big:{pid}:{D}:{seed}".encode()) % (2 ** 31))
+        lo, hi = float(problems_dict[pid]["bounds"][0]), float(problems_dict[pid]["bounds"][1])
+        B = rs.uniform(lo, hi, size=(n, D))
+        yb = evaluate(pid, B.copy(), 0)
+        idx = [0, 1, n // 2, n - 2, n - 1]
+        gaps = []
+        if len(yb) == n:
+            for i in idx:
+                a1 = float(evaluate(pid, B[i:i + 1].copy(), 0)[0])
+                gaps.append(abs(float(yb[i]) - a1) / max(1.0, abs(a1)))
+        big = {"rows": n, "returned": int(len(yb)), "gap": max(gaps) if gaps else None}
     # noisy problems: the documented noise never takes a value below the optimum (many draws)
     noisy_min = None
     if pid in NOISY and D <= 10:
@@ -88,4 +103,4 @@ def fresh(task):
         B = rs.uniform(lo, hi, size=(1500, D))
         noisy_min = float(np.min(evaluate(pid, B, 4321 + variant + seed)))
     return {"task": list(task), "y": [float(v) for v in y], "rows": rows, "x_modified": not np.array_equal(X, X0),
-            "sub": sub, "noisy_min": noisy_min}
+            "sub": sub, "noisy_min": noisy_min, "big": big}
